@@ -365,8 +365,8 @@ impl Property for C02 {
         "C02"
     }
     fn rule(&self) -> String {
-        "a pool of accepted messages (C01's generator) x modifications of the decoded message: each of root / external nullifier / x / y / nullifier replaced by +1, -1, another field's value, 0, a random value or the same field of another accepted message; two fields swapped; any single bit of the 128 proof bytes flipped; the proof of another accepted message; signal byte flipped / appended / truncated / emptied / replaced, with and without adjusting the declared length; declared length extended over trailing bytes or changed only in its high bits (real length + m*2^k, k in 8..63); each public value re-encoded as v + k*p; root sets without the root, with it at every position, with near-misses root±1, made only of distinguished values (zero entries, the empty tree's root, p-1, 1) with and without the real root, and empty; on verify / verify_rln_proof / verify_with_roots. Generated VerifierTree cases: up to 7 changes of the verifier's own tree after proving (writes/deletes at the sibling, neighbours, other members, overwriting/deleting/restoring the prover's leaf, restoring everything) with verify_rln_proof after every step: accepted exactly when the ideal tree's root equals the message's root. Fixed part: verifier tree changed after proving (set/delete other leaves, the prover's leaf) and restored. \
-         Oracle (computed independently per input): true iff proof+value bytes are the accepted message's, Keccak_ref(declared signal) = carried x and the root condition holds. non-trivial = a modification that breaks exactly one of the three conditions; distinct by case content".into()
+        "a pool of accepted messages (C01's generator) x modifications of the decoded message: each of root / external nullifier / x / y / nullifier replaced by +1, -1, another field's value, 0, a random value or the same field of another accepted message; two fields swapped; any single bit of the 128 proof bytes flipped; the proof of another accepted message; signal byte flipped / appended / truncated / emptied / replaced, with and without adjusting the declared length; declared length extended over trailing bytes or changed only in its high bits (real length + m*2^k, k in 8..63); each public value re-encoded as v + k*p; root sets without the root, with it at every position, with near-misses root±1, made only of distinguished values (zero entries, the empty tree's root, p-1, 1) with and without the real root, and empty; on verify / verify_rln_proof / verify_with_roots. Generated VerifierTree cases: up to 7 changes of the verifier's own tree after proving (writes/deletes at the sibling, neighbours, other members, overwriting/deleting/restoring the prover's leaf, restoring everything) with verify_rln_proof after every step: accepted exactly when the ideal tree's root equals the message's root. Fixed part: verifier tree changed after proving (set/delete other leaves, the prover's leaf) and restored. A quarter of the cases have every verification call made by a second long-lived thread of the caller (taking turns with the thread that proves and changes the tree). \
+         non-trivial = a modification that breaks exactly one of the three conditions; distinct by case content".into()
     }
     fn assumptions(&self) -> Vec<String> {
         vec!["Groth16 soundness; random modification does not find a second valid proof or a Keccak collision".into()]
@@ -420,6 +420,12 @@ impl Property for C02 {
         };
         crate::gens::set_io_style((case_hash(c) % 4) as u8);
         o.label(format!("io-style/{}", crate::gens::io_style()));
+        // a quarter of the cases: verification is done by a second long-lived thread of the caller
+        let second = (case_hash(c) / 4) % 4 == 1;
+        crate::pipeline::verify_on_second_thread(second);
+        if second {
+            o.label("verified-by-a-second-thread");
+        }
         o.label(format!("target/{:?}", c.target));
         let m = format!("{:?}", c.mutation);
         o.label(format!("mutation/{}", m.split(|ch: char| !ch.is_alphanumeric()).next().unwrap_or("")));
